@@ -125,9 +125,9 @@ type fnState struct {
 func (f *fnState) key() string { return f.fn.String() }
 
 func (f *fnState) emit(line string) {
-	if f.quant > 0 && strings.HasPrefix(line, "(assert") {
-		// inside a quantifier body terms mention bound variables: side facts (typing, heap closure)
-		// cannot be stated at top level and are dropped, which only loses knowledge
+	if f.quant > 0 && strings.HasPrefix(line, "(assert") && reBoundVar.MatchString(line) {
+		// inside a quantifier body terms mention bound variables: side facts about such terms (typing,
+		// heap closure) cannot be stated at top level and are dropped, which only loses knowledge
 		return
 	}
 	f.log = append(f.log, line)
@@ -175,6 +175,9 @@ func (f *fnState) define(prefix, sort, term string) string {
 	f.defs[n] = term
 	return n
 }
+
+// bound variables of contract quantifiers are named q_<name>
+var reBoundVar = regexp.MustCompile(`[\s(]q_[A-Za-z0-9_]+[\s)]`)
 
 var reMkSl = regexp.MustCompile(`^\(mk-sl .* (?:(\d+)|\(- (\d+) 0\)) (?:\d+|\(- \d+ 0\))\)$`)
 
@@ -256,6 +259,16 @@ func (f *fnState) oblige(class, label, site, goal string) *Obligation {
 	f.obls = append(f.obls, o)
 	f.assume(goal)
 	return o
+}
+
+// obligeNote records an obligation that is known not to hold (goal "false") without assuming it afterwards.
+func (f *fnState) obligeNote(class, label, site, goal, note string) {
+	n := len(f.log)
+	o := f.oblige(class, label, site, goal)
+	if o != nil {
+		o.Note = note
+		f.log = f.log[:n] // drop the assumption of the goal
+	}
 }
 
 func (f *fnState) unsupported(what string) {
@@ -800,6 +813,21 @@ func (f *fnState) run() {
 
 type engineError string
 
+// tryBool translates a contract clause; a clause that cannot be translated against the current code
+// (it names a local variable that no longer exists, say) yields ok == false and the reason.
+func (f *fnState) tryBool(e spec.Expr, ctx *specCtx) (t string, ok bool, why string) {
+	defer func() {
+		if r := recover(); r != nil {
+			if ue, isUE := r.(engineError); isUE {
+				t, ok, why = "false", false, string(ue)
+				return
+			}
+			panic(r)
+		}
+	}()
+	return f.specBool(e, ctx), true, ""
+}
+
 func (f *fnState) fail(format string, args ...interface{}) {
 	panic(engineError(fmt.Sprintf(format, args...)))
 }
@@ -893,7 +921,11 @@ func (f *fnState) loopHead(l *loopInfo) {
 	ctx.locals = true
 	ctx.invLoop = l
 	for _, c := range invs {
-		t := f.specBool(c.E, ctx)
+		t, ok, why := f.tryBool(c.E, ctx)
+		if !ok {
+			f.obligeNote("INV-ENTRY", c.Label, fmt.Sprintf("loop %d: %s", l.ordinal, normSite(c.Text)), "false", "the clause cannot be evaluated on the current code: "+why)
+			continue
+		}
 		f.oblige("INV-ENTRY", c.Label, fmt.Sprintf("loop %d: %s", l.ordinal, normSite(c.Text)), t)
 	}
 	f.structInvariants(l, "INV-ENTRY")
@@ -935,7 +967,9 @@ func (f *fnState) loopHead(l *loopInfo) {
 	ctx.locals = true
 	ctx.invLoop = l
 	for _, c := range invs {
-		f.assume(f.specBool(c.E, ctx))
+		if t, ok, _ := f.tryBool(c.E, ctx); ok {
+			f.assume(t)
+		}
 	}
 	f.structInvariants(l, "")
 	f.frameInvariants(l, "")
@@ -1088,7 +1122,10 @@ func (f *fnState) block(b *ssa.BasicBlock) {
 			ctx.locals = true
 			ctx.invLoop = l
 			for _, c := range f.invariantsFor(l) {
-				t := f.specBool(c.E, ctx)
+				t, ok, _ := f.tryBool(c.E, ctx)
+				if !ok {
+					continue // reported once, at the loop entry
+				}
 				f.oblige("INV-PRES", c.Label, fmt.Sprintf("loop %d: %s", l.ordinal, normSite(c.Text)), t)
 			}
 			f.structInvariants(l, "INV-PRES")
@@ -1130,8 +1167,14 @@ func (f *fnState) siteAsserts(ins ssa.Instruction, where string) {
 		actx := f.specCtx(nil)
 		actx.locals = true
 		f.sitePos = ins.Pos()
-		t := f.specBool(a.Clause.E, actx)
+		t, ok, why := f.tryBool(a.Clause.E, actx)
 		f.sitePos = token.NoPos
+		if !ok {
+			if !a.Assume {
+				f.obligeNote("ASSERT", a.Clause.Label, fmt.Sprintf("%s %q: %s", where, a.Needle, normSite(a.Clause.Text)), "false", "the clause cannot be evaluated on the current code: "+why)
+			}
+			continue
+		}
 		if a.Assume {
 			f.note(fmt.Sprintf("assumed fact in %s after %q: %s", f.fn.Name(), a.Needle, a.Clause.Text))
 			f.assume(t)
